@@ -469,6 +469,16 @@ def explore(ex, key, c, first_choice=None):
             if r == 'unsat':
                 continue
         covered |= br
+    if c.get('must_return'):
+        # a scenario must have a feasible path that RETURNS (its postconditions are only evaluated there)
+        ok_ = False
+        for pr in complete:
+            if pr.outcome[0] == 'normal' and abstract_check(list(pr.final_pc), 1000) != 'unsat':
+                if has_big_numeral(list(pr.final_pc)) or inprocess_check(list(pr.final_pc), 1.0)[0] != 'unsat':
+                    ok_ = True
+                    break
+        if not ok_:
+            unsupported.append(f'{key}: no feasible path of the scenario returns - its postconditions were never evaluated (vacuous)')
     for line, v in sorted(wanted - covered):
         unsupported.append(f'{key}: the {"true" if v else "false"} outcome of the branch at line {line} is reached only on paths whose assumptions are '
                            f'contradictory (vacuous proof refused: check callee summaries / ghost effects used before it)')
